@@ -26,6 +26,7 @@ Definition E_EXISTS        : Z := 53.  (* ValueError: No frontend to copy to / D
 Definition E_BAD_GROUPS    : Z := 54.  (* ValueError: Duplicate chunk numbers / not consecutive integers *)
 Definition E_NOT_STORED    : Z := 55.  (* AssertionError in merge_per_chunk_storage: a per-chunk result is missing *)
 Definition E_EMPTY_INPUT   : Z := 56.  (* ValueError: Cannot work with empty input buffer *)
+Definition E_SAME_DIR      : Z := 57.  (* ValueError: The destination ... is the source directory itself *)
 
 Definition retarget (t : Z) (c : chunk) : chunk :=
   mkchunk (cstart c) (cend c) (crows c) (cdtype c) (ckind c) (crun c) t.
@@ -197,7 +198,9 @@ Definition run_saver (fs : fsys) (dst tmp : Z) (md : stored) (r : res (list chun
 Definition opt_set_comp (s : stored) (k : option Z) := match k with Some k => set_comp s k | None => s end.
 Definition opt_set_target (s : stored) (t : option Z) := match t with Some t => set_target s t | None => s end.
 
-Definition rechunker_run (fs : fsys) (src dst tmp : Z) (replace : bool) (comp tgt : option Z) (rechunk : bool)
+(* the body of rechunker() after the argument checks (= the whole function before the repair
+   "fix: rechunker refuses a destination that is the source directory") *)
+Definition rechunker_unguarded (fs : fsys) (src dst tmp : Z) (replace : bool) (comp tgt : option Z) (rechunk : bool)
   : list fsys * res unit :=
   match lookup src fs with
   | None => ([], Err E_NOT_AVAILABLE)
@@ -226,6 +229,16 @@ Definition rechunker_run (fs : fsys) (src dst tmp : Z) (replace : bool) (comp tg
           else (tr, Ok tt)
       | Err e => (tr, Err e)
       end
+  end.
+
+(* _check_arguments (source must exist), then the destination must not resolve to the source directory
+   (ValueError before anything is removed) *)
+Definition rechunker_run (fs : fsys) (src dst tmp : Z) (replace : bool) (comp tgt : option Z) (rechunk : bool)
+  : list fsys * res unit :=
+  match lookup src fs with
+  | None => ([], Err E_NOT_AVAILABLE)
+  | Some _ => if src =? dst then ([], Err E_SAME_DIR)
+              else rechunker_unguarded fs src dst tmp replace comp tgt rechunk
   end.
 
 (* Context.copy_to_frontend(run_id, target, target_frontend_id, target_compressor, rechunk, rechunk_to_mb):
@@ -295,7 +308,7 @@ Arguments info_of {bytes}.   Arguments open_md {bytes}.   Arguments close_md {by
 Arguments save_stream {bytes}. Arguments read_chunk {bytes}. Arguments load_from {bytes}. Arguments load {bytes}.
 Arguments is_valid {bytes}.  Arguments lookup {bytes}.    Arguments remove {bytes}.    Arguments put {bytes}.
 Arguments move {bytes}.      Arguments visible {bytes}.   Arguments saver_trace {bytes}. Arguments transfer {bytes}.
-Arguments run_saver {bytes}. Arguments rechunker_run {bytes}. Arguments copy_run {bytes}.
+Arguments run_saver {bytes}. Arguments rechunker_run {bytes}. Arguments rechunker_unguarded {bytes}. Arguments copy_run {bytes}.
 Arguments compute_chunk {bytes}. Arguments make_from {bytes}. Arguments merge_source {bytes}. Arguments merge_run {bytes}.
 
 (* ------------------------------------------------------------------ lineage serialisation
